@@ -338,8 +338,11 @@ def _limit_arg(ctx):
 
 # --------------------------------------------------------------------------------- (b) histories
 
-W_LINES = ["10.0.0.0 0.0.0.3", "20.0.0.5 0.0.1.0", "30.0.0.0 0.0.7.1", "40.0.0.0 0.0.31.0",
-           "50.0.0.0 0.0.0.256", "60.0.0.5 0.0.1.0"]  # last: same mask as the second, other base
+W_LINES = ["10.0.0.0 0.0.0.3", "10.0.0.0 0.0.0.1",    # same base, shorter contiguous tail
+           "20.0.0.5 0.0.1.0", "60.0.0.5 0.0.1.0",    # same mask, other base
+           "30.0.0.0 0.0.7.1", "30.0.0.0 0.0.7.3",    # same base and stray bits, longer tail
+           "40.0.0.0 0.0.31.0",                       # over the limit for small limits
+           "50.0.0.0 0.0.0.256"]                      # invalid
 
 
 def _w_ops():
@@ -351,7 +354,7 @@ def _w_ops():
 
 A_LINES = {
     "a": ["any", "host 10.0.0.1", "10.0.0.0/30", "20.0.0.0 0.0.3.3", "object-group G",
-          "30.0.0.0 0.0.0.255", "bad line", "21.0.0.0 0.0.3.3"],
+          "30.0.0.0 0.0.0.255", "bad line", "21.0.0.0 0.0.3.3", "20.0.0.0 0.0.3.1"],
     "ag": ["host 10.0.0.1", "10.0.0.0/30", "20.0.0.0 255.255.255.0", "10 30.0.0.0/24",
            "40.0.0.0 0.0.3.3", "bad line"],
 }
@@ -361,6 +364,7 @@ def _a_ops(cls):
     ops = [("line", ln) for ln in A_LINES[cls]]
     ops += [("prefix", p) for p in ("50.0.0.0/25", "50.0.0.9/32")]
     ops += [("platform", p) for p in ("ios", "nxos")]
+    ops += [("max_ncwb", v) for v in (1, 16)]
     ops += [("q", q) for q in ("ipnets", "prefixes", "subnets", "wildcards", "ipnet", "line")]
     return ops
 
@@ -441,6 +445,12 @@ def _run_history(cls, ops, ctx, record=True):
                      "documented ValueError/TypeError or success")
             return
         ctx.trans()
+        if res == "refused" and op[0] not in ("line", "prefix"):
+            # C05 speaks about a refused LINE assignment; what a refused platform change leaves
+            # behind (e.g. after max_ncwb was lowered below what the current line needs) is
+            # outside this property - the history ends here
+            ctx.out("hist_refused_other_op")
+            return
         try:
             now_line = obj.line
             have = _observe(cls, obj)
@@ -451,6 +461,21 @@ def _run_history(cls, ops, ctx, record=True):
             return
         ctx.state((cls, sorted(have.items(), key=str), getattr(obj, "max_ncwb", None),
                    getattr(obj, "platform", None)))
+        # a successful line assignment never leaves more stray bits than the configured limit
+        if res == "ok" and op[0] in ("line", "prefix"):
+            wl = now_line if cls == "w" else getattr(obj, "wildcard", "")
+            parts = wl.split()
+            if len(parts) == 2:
+                mask = S.ip2int(parts[1])
+                r = 0
+                while r < 32 and (mask >> r) & 1:
+                    r += 1
+                need = bin(mask >> r).count("1")
+                if need > obj.max_ncwb:
+                    ctx.viol(f"{_cname(cls)}:limit_not_enforced_on_assignment",
+                             dict(case, step=i, op=list(op)), dict(line=wl, needs=need),
+                             f"refused: limit is {obj.max_ncwb}")
+                    return
         if res == "refused":
             ctx.out("hist_refused_assignment")
             if op[0] in ("line", "prefix") and now_line != before_line:
